@@ -275,9 +275,9 @@ class ParserEngine(ParserCore, CanParse):
         parseinfo = self.make_parseinfo(name, pos)
         if parseinfo is None:
             return node
-        if isinstance(node, AST) and node.parseinfo is not None:
-            # NOTE: the AST was returned, and stamped, by another rule that may
-            #   hand it out again from the memo cache: stamp a copy
+        if getattr(node, 'parseinfo', None) is not None:
+            # NOTE: the AST or model node was returned, and stamped, by another
+            #   rule that may hand it out again from the memo cache: stamp a copy
             node = copy(node)
         if hasattr(node, 'set_parseinfo'):
             node.set_parseinfo(parseinfo)
